@@ -54,8 +54,9 @@ def pack_table(f):
     return out
 
 
-def unpack_table(f):
-    """[(field number, wire type discriminant, field type, struct field)] from the derived unpack's switch tree."""
+def unpack_table(f, raw=False):
+    """[(field number, wire type discriminant, field type, struct field)] from the derived unpack's switch tree.
+    raw=True keeps the generic arguments of the field type (message<M>)."""
     out = []
     for b, t in f.calls():
         ck = callee_skey(t) or ""
@@ -64,7 +65,7 @@ def unpack_table(f):
         pt = P.term_pt(f, b.idx)
         ga = t.get("ga", "")
         parts = [x.strip() for x in ga.strip("[]").split(", ", 1)]
-        ty = strip_generics(parts[1]) if len(parts) > 1 else "?"
+        ty = (parts[1] if raw else strip_generics(parts[1])) if len(parts) > 1 else "?"
         num = wt = None
         for bb, lab in P.guards_of(f, pt):
             d = f.blocks[bb].term["discr"]
